@@ -375,10 +375,14 @@ def shape_defs(rng, builtins):
         if well_formed(d, builtins):
             out.append(d)
     # Accept transitions with failing contexts next to any-transitions (C04)
-    for i in range(6):
+    for i in range(10):
         a, b, c = rng.sample(LETTERS, 3)
+        lo, hi = min(a, b, c), max(a, b, c)
         ctxs = [chr_(b), str_(chr(b) + chr(c)), ('star', chr_(b)), cat(('plus', chr_(b)), EOI), EOI, set_((a, c)), alt(chr_(b), EOI),
-                cat(chr_(a), ('star', chr_(b)), chr_(c))]
+                cat(chr_(a), ('star', chr_(b)), chr_(c)),
+                # a character that completes the context on its own inside a range that needs more input, and vice versa
+                alt(cat(set_((lo, hi)), chr_('x')), chr_(b)), alt(cat(chr_(b), chr_('x')), set_((lo, hi))),
+                cat(chr_(b), alt(cat(set_((lo, hi)), chr_(a)), chr_(c))), alt(cat(ANY, chr_('x')), chr_(b), cat(set_((lo, hi)), chr_('y')))]
         items = [rule('simple', chr_(a), rng.choice(ctxs)), rule('simple', chr_(a), rng.choice(ctxs)), rule('simple', ANY),
                  rule('simple', cat(chr_(a), chr_(b)), rng.choice(ctxs)), rule('simple', cat(ANY, ANY, ANY), rng.choice(ctxs))]
         rng.shuffle(items)
